@@ -897,13 +897,13 @@ def run(ctx):
     for f in sorted(cdir.glob('*.json')) if cdir.is_dir() else []:
         replay(ctx, json.loads(f.read_text()), from_corpus=True)
     if ctx.tier == 'quick':
-        run_unit(ctx, n_layouts=4, n_per_layout=100)
-        fails = ['success'] + rng.sample(FAILURES[1:], 9)
+        run_unit(ctx, n_layouts=8, n_per_layout=150)
+        fails = ["success"] + rng.sample(FAILURES[1:], 11)
         runs = [(f, True) for f in fails] + [('success', False)]
     else:
-        run_unit(ctx, n_layouts=20, n_per_layout=250)
-        runs = [(f, True) for f in FAILURES for _ in range(3)] + \
-               [(f, False) for f in FAILURES]
+        run_unit(ctx, n_layouts=40, n_per_layout=300)
+        runs = [(f, True) for f in FAILURES for _ in range(6)] + \
+               [(f, False) for f in FAILURES for _ in range(2)]
     for failure, awkward in runs:
         check_run(ctx, rng, failure, awkward)
     # the scanner is not blind: the same kind of run without cloud_safe
